@@ -58,7 +58,8 @@ class Gen:
             pts = [(cx, cy), (cx + w, cy), (cx + w, cy + h), (cx, cy + h)]
         elif kind == 1:    # star-shaped (simple by construction)
             n = r.randrange(3, 14)
-            angs = sorted(r.uniform(0, 2 * math.pi) for _ in range(n))
+            a0 = r.uniform(0, 2 * math.pi)   # evenly spread with jitter: every angular gap < pi, so the polygon is star-shaped about its centre
+            angs = [a0 + (k + r.uniform(-0.35, 0.35)) * 2 * math.pi / n for k in range(n)]
             for a in angs:
                 rad = r.randrange(5, 80)
                 pts.append((cx + round(rad * math.cos(a)), cy + round(rad * math.sin(a))))
@@ -173,21 +174,33 @@ class Gen:
             ext = (self.on_grid(g, lo, 8), self.on_grid(g, lo, 8)) if end == 3 else (0.0, 0.0)
             els.append({'width': w, 'offset': off, 'tag': self.tag(), 'join': r.choice([0, 1, 2, 3]) if not simple else 0,
                         'end': end, 'ext': ext, 'bend': 0, 'bend_radius': 0.0})
-        # Manhattan spine with long segments (>= 4 widths) so that offsets never fold over
+        # spine with long segments (>= 4 widths) and turns of at most 90 degrees, so that neither offsets nor
+        # joins fold over (no degenerate self-overlap: the domain of C07 and of the GDSII path semantics)
         x, y = r.randrange(-100, 100), r.randrange(-100, 100)
         p0 = (x * g, y * g)
         pts = []
-        horiz = r.random() < 0.5
+        last = None
+        oblique_ok = all(e['offset'] == 0 for e in els)
         for _ in range(r.randrange(1, 6)):
-            d = r.choice([-1, 1]) * r.randrange(60, 140)
-            if horiz:
-                x += d
+            for _try in range(20):
+                k = r.random()
+                if k < 0.25 and oblique_ok:
+                    d = (r.choice([-1, 1]) * r.randrange(60, 100), r.choice([-1, 1]) * r.randrange(60, 100))
+                elif k < 0.62:
+                    d = (r.choice([-1, 1]) * r.randrange(60, 140), 0)
+                else:
+                    d = (0, r.choice([-1, 1]) * r.randrange(60, 140))
+                if last is None:
+                    break
+                dot = d[0] * last[0] + d[1] * last[1]
+                cross = d[0] * last[1] - d[1] * last[0]
+                if dot >= 0 and (cross != 0):
+                    break
             else:
-                y += d
-            horiz = not horiz
-            if r.random() < 0.25:     # an oblique segment
-                x += r.choice([-1, 1]) * r.randrange(60, 100)
-                y += r.choice([-1, 1]) * r.randrange(60, 100)
+                break
+            last = d
+            x += d[0]
+            y += d[1]
             pts.append((x * g, y * g))
         return {'p0': p0, 'tol': 1e-2 * 10 * g, 'elements': els, 'simple': simple, 'scale_width': r.random() < 0.8,
                 'calls': [('segment', pts)], 'rep': self.repetition(g), 'props': self.gds_props() + self.oas_props()}
@@ -199,7 +212,7 @@ class Gen:
         els = []
         for i in range(nel):
             w = self.on_grid(g, 1, 10) * 2
-            off = 0.0 if nel == 1 else (i - (nel - 1) / 2) * self.on_grid(g, 8, 14) * 2
+            off = 0.0 if (nel == 1 or simple) else (i - (nel - 1) / 2) * self.on_grid(g, 8, 14) * 2
             ends = [0, 2, 3] + ([1] if self.o['round_ends'] else [])
             end = r.choice(ends)
             lo = -3 if self.o['ext_neg'] else 0
